@@ -85,6 +85,7 @@ func overlayFor(spec LoadSpec, pkgName string) (map[string][]byte, error) {
 		if err != nil {
 			return nil, err
 		}
+		b = []byte(strings.Replace(string(b), "package PKGNAME", "package "+pkgName, 1))
 		ov[filepath.Join(dir, "zz_verif_"+filepath.Base(f))] = b
 	}
 	rt, err := os.ReadFile(rtTemplatePath)
@@ -111,7 +112,7 @@ func LoadProgram(spec LoadSpec) (*Program, error) {
 	if len(spec.Files) == 0 {
 		return nil, fmt.Errorf("no harness files")
 	}
-	pkgName, err := packageNameOf(spec.Files[0])
+	pkgName, err := specPackageName(spec)
 	if err != nil {
 		return nil, err
 	}
@@ -347,4 +348,18 @@ func (P *Program) repoFuncs() (repo []FuncInfo, other int) {
 	}
 	sort.Slice(repo, func(i, j int) bool { return repo[i].Name < repo[j].Name })
 	return
+}
+
+// specPackageName takes the package name from the first harness file that names one.
+func specPackageName(spec LoadSpec) (string, error) {
+	for _, f := range spec.Files {
+		n, err := packageNameOf(f)
+		if err != nil {
+			return "", err
+		}
+		if n != "PKGNAME" {
+			return n, nil
+		}
+	}
+	return "", fmt.Errorf("no harness file names the package")
 }
